@@ -377,16 +377,22 @@ func runC12(c *core.Ctx, o Options) {
 	if pr := c.Func("generator", "Generator.prepare"); pr != nil {
 		// prepare walks messages, components, header and trailer
 		srcs := map[string]bool{}
-		an.AllInstrs(pr, func(in ssa.Instruction) {
-			if call, ok := in.(*ssa.Call); ok && an.CalleeIs(&call.Call, "generator", "Generator.grabGroups") {
-				r := an.Render(call.Call.Args[1])
-				for _, k := range []string{"doc.Messages", "doc.Components", "doc.Header", "doc.Trailer"} {
-					if strings.Contains(r, k) {
-						srcs[k] = true
+		for _, fn := range pkgFuncs(gen) {
+			// prepare itself and the sequential steps cut out of it
+			if owner, _ := an.LogicalOwner(fn); owner != pr && fn != pr {
+				continue
+			}
+			an.AllInstrs(fn, func(in ssa.Instruction) {
+				if call, ok := in.(*ssa.Call); ok && an.CalleeIs(&call.Call, "generator", "Generator.grabGroups") {
+					r := an.Render(call.Call.Args[1])
+					for _, k := range []string{"doc.Messages", "doc.Components", "doc.Header", "doc.Trailer"} {
+						if strings.Contains(r, k) {
+							srcs[k] = true
+						}
 					}
 				}
-			}
-		})
+			})
+		}
 		c.Check(len(srcs) == 4, "c″", "prepare", "collects groups from messages, components, header and trailer", pr.Pos(), fmt.Sprint(srcs), fmt.Sprintf("groups are collected only from %v", srcs))
 	}
 	// ---- (d) determinism: map ranges
@@ -929,7 +935,7 @@ func runC12(c *core.Ctx, o Options) {
 	}
 	// ---- (f) duplicates
 	if pr := c.Func("generator", "Generator.prepare"); c.Anchor("prepare", pr != nil, "Generator.prepare", posOf(pr)) {
-		ps, _ := an.EnumPaths(pr, 20000)
+		ps, _ := an.EnumPathsX(pr, 20000)
 		for _, what := range []struct{ key, label string }{{".Number]#1", "field number"}, {".MsgType]#1", "message type"}} {
 			okDup, seen := true, false
 			for _, p := range ps {
